@@ -1,6 +1,7 @@
 package main
 
 import (
+	"encoding/json"
 	"fmt"
 	"reflect"
 	"sort"
@@ -181,13 +182,51 @@ func runC13(c *Ctx) {
 			}
 			return ac, gc
 		}
+		// user and activation claims: the issuer account names nobody, the very account whose key signs, or another
+		// account; some builds were encoded before (and carry that encoding's issuer), some come back from a token
+		otherAcct := kr.by["operator"].pub
+		buildUA := func() (*jwt.UserClaims, *jwt.ActivationClaims) {
+			uc := jwt.NewUserClaims(kr.by["user"].pub)
+			uc.IssuerAccount = []string{"", acctKp.pub, otherAcct, acctKp.pub}[n%4]
+			uc.Pub.Allow.Add("u.a", "u.b.>")
+			uc.Sub.Deny.Add("u.c")
+			uc.Tags.Add("ut1", "ut0")
+			uc.Src.Set("192.0.2.0/24,198.51.100.7/32")
+			uc.Times = []jwt.TimeRange{{Start: "08:00:00", End: "17:00:00"}}
+			uc.Locale = "Europe/Berlin"
+			uc.BearerToken = n%2 == 0
+			uc.Name, uc.Expires, uc.Audience = fmt.Sprintf("content %d", n), 4102444800+int64(n), "aud"
+			act := jwt.NewActivationClaims(acctKp.pub)
+			act.IssuerAccount = []string{acctKp.pub, "", otherAcct, acctKp.pub}[n%4]
+			act.ImportSubject, act.ImportType = "act.>", jwt.Stream
+			act.Tags.Add("at1", "at0")
+			act.Name, act.Expires, act.Audience = fmt.Sprintf("content %d", n), 4102444800+int64(n), "aud"
+			switch c.Rng.Intn(3) {
+			case 0:
+				uc.Encode(acctKp.kp)
+				act.Encode(acctKp.kp)
+			case 1:
+				if t, err := uc.Encode(acctKp.kp); err == nil {
+					if d, err := jwt.DecodeUserClaims(t); err == nil {
+						uc = d
+					}
+				}
+				if t, err := act.Encode(acctKp.kp); err == nil {
+					if d, err := jwt.DecodeActivationClaims(t); err == nil {
+						act = d
+					}
+				}
+			}
+			return uc, act
+		}
 		tokens := map[string][]string{}
 		iats := map[string]int64{}
 		for o := 0; o < orders; o++ {
 			ac, gc := build()
 			oc := buildOp()
+			uc, act := buildUA()
 			for r := 0; r < repeats; r++ {
-				for name, cl := range map[string]jwt.Claims{"account": ac, "generic": gc, "operator": oc} {
+				for name, cl := range map[string]jwt.Claims{"account": ac, "generic": gc, "operator": oc, "user": uc, "activation": act} {
 					kp := acctKp.kp
 					if name == "operator" {
 						kp = opKp.kp
@@ -371,6 +410,63 @@ func runC14(c *Ctx) {
 			c.count("scoped_accepted")
 		} else {
 			c.count("scoped_refused")
+		}
+	}
+	// ... and for user claims that ARRIVE AS TOKENS written by another producer: a member spelled out as JSON null (or an
+	// object with nothing in it) is a member that is not there - such a user carries no permissions or limits of its own
+	{
+		uc := jwt.NewUserClaims(kr.by["user"].pub)
+		uc.UserPermissionLimits = jwt.UserPermissionLimits{}
+		uc.IssuerAccount = kr.by["account"].pub
+		base, err := uc.Encode(scopeKp.kp)
+		if err != nil {
+			panic(err)
+		}
+		ch := strings.Split(base, ".")
+		hj, _ := b64.DecodeString(ch[0])
+		pj, _ := b64.DecodeString(ch[1])
+		forms := []map[string]interface{}{
+			{}, {"src": nil}, {"times": nil}, {"pub": nil}, {"sub": nil}, {"resp": nil}, {"allowed_connection_types": nil}, {"times_location": nil},
+			{"subs": nil}, {"data": nil}, {"payload": nil}, {"bearer_token": nil}, {"pub": map[string]interface{}{}}, {"sub": map[string]interface{}{}},
+			{"pub": map[string]interface{}{"allow": nil, "deny": nil}}, {"sub": map[string]interface{}{"allow": nil}},
+			{"src": nil, "times": nil, "pub": nil, "sub": nil, "resp": nil, "allowed_connection_types": nil, "times_location": nil, "subs": nil, "data": nil, "payload": nil, "bearer_token": nil},
+		}
+		for fi, form := range forms {
+			var m map[string]interface{}
+			if err := json.Unmarshal(pj, &m); err != nil {
+				panic(err)
+			}
+			nats := m["nats"].(map[string]interface{})
+			for k, v := range form {
+				nats[k] = v
+			}
+			pj2, _ := json.Marshal(m)
+			tok := forge(string(hj), string(pj2), "v2", scopeKp).Token
+			inp := map[string]interface{}{"kind": "user", "arrived_as": "token", "members_spelled_as_null_or_empty_object": form, "token": tok}
+			c.sum.Evaluations++
+			c.sum.ImplChecks++
+			for _, dec := range []string{"Decode", "DecodeUserClaims"} {
+				var cl jwt.Claims
+				var err error
+				if dec == "Decode" {
+					cl, err = jwt.Decode(tok)
+				} else {
+					cl, err = jwt.DecodeUserClaims(tok)
+				}
+				if err != nil {
+					continue // whether such a token is accepted at all is not this property's business
+				}
+				if err := us.ValidateScopedSigner(cl); err != nil {
+					inp["decoder"], inp["error"] = dec, err.Error()
+					c.violation("C14: a scope refuses a user claim issued by its key that carries no permissions or limits of its own (members written as null count as absent)", inp)
+				}
+				if u, ok := cl.(*jwt.UserClaims); ok && !u.HasEmptyPermissions() {
+					inp["decoder"] = dec
+					c.violation("C14: a user decoded from a token with no permissions or limits (members written as null) reports permissions of its own", inp)
+				}
+			}
+			distinct[fmt.Sprint("ss-token", fi)] = true
+			c.count("scoped_from_token")
 		}
 	}
 	// 3. IssueUserJWT
